@@ -154,6 +154,16 @@ DecodeLayout(lay, bytes) ==
 SameFields(lay, a, b) == \A i \in 1..Len(lay) : \A j \in 1..Len(lay[i].fields) :
                             LET f == lay[i].fields[j] IN f.kind = "rfu" \/ a[f.name] = b[f.name]
 
+\* ---- DeviceTimeAns: the Go value is a duration {neg, secs (8 bytes LE), ns}; the wire has
+\*      Seconds (u32) and Frac (1/256 s, rounded down) - LoRaWAN 1.1 sec. 5.9 ----------------------
+IsDTA(e) == e.dir = "down" /\ e.cid = 13
+DurRepresentable(t) == ~t.neg /\ SubSeq(t.secs, 5, 8) = <<0, 0, 0, 0>>
+DurToFields(t) == [Seconds |-> SubSeq(t.secs, 1, 4), Frac |-> t.ns \div 3906250]
+FieldsToDur(v) == [neg |-> FALSE, secs |-> v.Seconds \o <<0, 0, 0, 0>>, ns |-> v.Frac * 3906250]
+QuantDur(t) == [neg |-> FALSE, secs |-> t.secs, ns |-> (t.ns \div 3906250) * 3906250]
+
+NormVal(dir, cid, v) == IF dir = "down" /\ cid = 13 /\ "Time" \in DOMAIN v THEN DurToFields(v.Time) ELSE v
+
 \* ---- command level ------------------------------------------------------------------------------
 \* a command is [cid |-> n, p |-> <<>> (no payload) | <<value record>> | raw |-> bytes (proprietary)]
 \* registry: function from <<dir, cid>> to size for proprietary CIDs (absent = 0)
